@@ -75,6 +75,12 @@ Definition wrap_mode (m : gmethod) : N :=
   | [] => if c_WrapErrors (m_common (g_conf m)) then 1 else 0
   end.
 
+(* enum switch: the first case whose value equals the source, else the default action *)
+Definition enum_action (cases : list (Z * eaction)) (dflt : eaction) (z : Z) : eaction :=
+  match find (fun c => Z.eqb (fst c) z) cases with Some c => snd c | None => dflt end.
+(* the error an enum switch returns for enum:unknown @error (fmt.Errorf, not a custom function) *)
+Definition ENUM_ERR : N := 1000000.
+
 (* context values of the running method, by type *)
 Definition ctxs := list (ty * val).
 Definition ctx_get (cx : ctxs) (t : ty) : val :=
@@ -207,6 +213,21 @@ Section eval.
       | PMakeList elem a =>
         match src with
         | VArr vs => eval_a f cx a src (VSlice st (repeat (zero e ZFUEL elem) (length vs))) (st + 1)
+        | _ => Stuck
+        end
+      | PEnum init t cases dflt =>
+        let* (old, st1) := match init with
+                           | None => Done (zero e ZFUEL t, st)
+                           | Some (ip, to_ptr) => let* (v0, s1) := eval_v f cx ip src st in
+                                                  if to_ptr then Done (VPtr s1 v0, s1 + 1) else Done (v0, s1)
+                           end in
+        match src with
+        | VBasic z => match enum_action cases dflt z with
+                      | EASet v => Done (VBasic v, st1)
+                      | EAIgnore => Done (old, st1)
+                      | EAPanic => Panicked
+                      | EAError => Errored {| er_fn := ENUM_ERR; er_wraps := []; er_pending := [] |}
+                      end
         | _ => Stuck
         end
       end
